@@ -9,7 +9,7 @@ import ast
 from ..model import (walk_shallow, call_name, is_self_attr, dotted_name, parent, ancestors, enclosing_function,
                      is_generator, norm_stmt)
 from ..util import (has_call, find_calls, assigned_value, const_str, unparse, kw, arg_or_kw, enclosing_stmt,
-                    control_ancestors, guards_of, call_tail)
+                    control_ancestors, guards_of, call_tail, node_ast_for_effects)
 from .. import mutate as M
 
 EXPLANATION = ("Family-wide rules over every Source/Environment/Filter class (families computed from the class hierarchy): "
@@ -50,6 +50,70 @@ def run(ctx):
     r5_cache_copies(ctx)
     r6_replay_buffer(ctx)
     r7_held_learners(ctx, fam)
+    r8_parallel_lists(ctx)
+
+
+STRUCT_MUT = {"pop", "insert", "remove", "append", "sort", "reverse", "clear", "extend"}
+
+
+def aligned_pairs(fn):
+    """[(A, B, assign)]: B = [f(e) for e in A] -- B[i] describes A[i] for every i."""
+    out = []
+    for x in walk_shallow(fn):
+        if isinstance(x, ast.Assign) and len(x.targets) == 1 and isinstance(x.targets[0], ast.Name) and isinstance(x.value, ast.ListComp):
+            g = x.value.generators
+            if len(g) == 1 and not g[0].ifs and isinstance(g[0].iter, ast.Name):
+                out.append((g[0].iter.id, x.targets[0].id, x))
+    return out
+
+
+def r8_parallel_lists(ctx, rule="C04.R8"):
+    """save() works out which environments are already in the file through two positionally aligned lists; an index found in one is applied
+    to the other, so every structural change must be applied to both, with the same argument, side by side."""
+    ctx.rule(rule, "positionally aligned lists (B = [f(e) for e in A]) that are cross-indexed (an index found with B.index() applied to A) are "
+                   "changed in lockstep: every pop/insert/remove/... on one has the same call on the other in the same block")
+    CORE = "coba/environments/core.py"
+    n = 0
+    targets = [(CORE, "Environments.save")]
+    if ctx.thorough:
+        targets = [(r, q) for (r, q) in sorted(ctx.model.functions) if not r.startswith("coba/tests")]
+    for rel, qual in targets:
+        fn = ctx.fn(rel, qual) if (rel, qual) == (CORE, "Environments.save") else ctx.model.func(rel, qual)
+        for A, B, asg in aligned_pairs(fn):
+            def derived_from_index(e, lst):
+                """e is lst.index(...) or a local whose only binding is that."""
+                if isinstance(e, ast.Call) and isinstance(e.func, ast.Attribute) and e.func.attr == "index" and isinstance(e.func.value, ast.Name) and e.func.value.id == lst:
+                    return True
+                if isinstance(e, ast.Name):
+                    defs = [x for x in walk_shallow(fn) if isinstance(x, ast.Assign) and any(isinstance(t, ast.Name) and t.id == e.id for t in x.targets)]
+                    return bool(defs) and all(derived_from_index(d.value, lst) for d in defs)
+                return False
+            uses = []
+            for x in walk_shallow(fn):
+                for this, other in ((A, B), (B, A)):
+                    if isinstance(x, ast.Call) and isinstance(x.func, ast.Attribute) and isinstance(x.func.value, ast.Name) and x.func.value.id == this \
+                            and x.func.attr in ("pop", "insert", "__getitem__", "__delitem__") and x.args and derived_from_index(x.args[0], other):
+                        uses.append(x)
+                    if isinstance(x, ast.Subscript) and isinstance(x.value, ast.Name) and x.value.id == this and derived_from_index(x.slice, other):
+                        uses.append(x)
+            if not uses:
+                continue
+            n += 1
+            ctx.touch(rel, qual)
+            muts = [c for c in walk_shallow(fn) if isinstance(c, ast.Call) and isinstance(c.func, ast.Attribute) and c.func.attr in STRUCT_MUT
+                    and isinstance(c.func.value, ast.Name) and c.func.value.id in (A, B) and c.lineno > asg.lineno]
+            for c in muts:
+                other = B if c.func.value.id == A else A
+                blk = parent(enclosing_stmt(c))
+                def same(d):
+                    return d is not c and d.func.value.id == other and d.func.attr == c.func.attr and \
+                        ((not c.args and not d.args) or (c.args and d.args and (unparse(d.args[0]) == unparse(c.args[0]) or
+                                                                         (derived_from_index(c.args[0], A) or derived_from_index(c.args[0], B)) and
+                                                                         isinstance(c.args[0], ast.Name) and isinstance(d.args[0], ast.Name) and d.args[0].id == c.args[0].id)))
+                partner = [d for d in muts if same(d) and parent(enclosing_stmt(d)) is blk]
+                ctx.ob(rule, rel, qual, c, f"`{c.func.value.id}.{c.func.attr}(...)` has the same call on the aligned list `{other}` in the same block", bool(partner),
+                       detail={"aligned": [A, B], "cross_indexed_at": [u.lineno for u in uses]})
+    ctx.floor(rule, "cross-indexed aligned list pairs", n, 1)
 
 
 def family(ctx):
@@ -357,6 +421,7 @@ def r2_cross_read_state(ctx, fam, rule="C04.R2", only=None):
 
 # ------------------------------------------------------------------------------------------ R3
 # freshness levels
+PR = "coba/pipes/rows.py"
 B, F1, F2, FL = 0, 1, 2, 3   # borrowed / shallow copy / copy whose 'context' is fresh too / built in this call (literal, constructor)
 STREAM_PASS = {"iter", "chain", "islice", "list", "tuple", "sorted", "reversed", "filter"}
 FRESH_CALLS = {"list", "dict", "set", "tuple", "sorted", "bytearray", "frozenset"}
@@ -370,11 +435,12 @@ class Fresh:
     kind 'stream': iterable of interactions, `level` = freshness of its elements,
                    fresh_container = the iterable itself was created in this call (list(...))."""
 
-    def __init__(self, fn, param_stream_names):
+    def __init__(self, fn, param_stream_names, init_extra=None):
         from ..cfg import CFG, forward
         self.fn = fn
         self.cfg = CFG(fn)
         init = {p: ("stream", B, False) for p in param_stream_names}
+        init.update(init_extra or {})
         self.IN = forward(self.cfg, init, self.transfer, self.join)
 
     # -- lattice
@@ -552,9 +618,10 @@ class Fresh:
                             lvl = st[a.iter.id][1]
                         self._bind(out, t, ("obj", lvl, True))
             return out
-        if n.kind == "stmt" and isinstance(a, ast.Assign) and len(a.targets) == 1:
+        if n.kind == "stmt" and isinstance(a, ast.Assign):
             out = dict(st)
-            self._bind_value(out, a.targets[0], a.value, st)
+            for t in a.targets:  # a = b[k] = value binds every target to the same value
+                self._bind_value(out, t, a.value, st)
             return out
         return st
 
@@ -609,6 +676,8 @@ def r3_targets(ctx):
         for (r, qual), fn in sorted(m.functions.items()):
             if r == rel and qual.count(".") == 1 and qual.split(".")[-1] in ("filter", "_unbatch", "_batched"):
                 out.append((rel, qual, fn))
+    for qual in ("EncodeCatRows._encode_collection", "EncodeCatRows._encode_values"):
+        out.append((PR, qual, m.func(PR, qual)))
     out.append(("coba/evaluators/sequential.py", "RejectionCB.evaluate", m.func("coba/evaluators/sequential.py", "RejectionCB.evaluate")))
     out.append(("coba/evaluators/sequential.py", "SequentialCB._results", m.func("coba/evaluators/sequential.py", "SequentialCB._results")))
     if ctx.thorough:
@@ -633,42 +702,65 @@ def r3_copy_before_mutate(ctx, rule="C04.R3", only=None):
             params = []
         if qual.endswith("RejectionCB.evaluate"):
             params = []
-        fr = Fresh(fn, params)
         ctx.touch(rel, qual)
-        reach = fr.cfg.reachable()
-        seen_nodes = set()
-        for node in fr.cfg.nodes:
-            if node.id not in reach or node.kind != "stmt" or node.ast is None or node.id not in fr.IN:
-                continue
-            if isinstance(node.ast, (ast.FunctionDef, ast.ClassDef)):
-                continue
-            if id(node.ast) in seen_nodes:
-                continue
-            seen_nodes.add(id(node.ast))
-            st = fr.IN[node.id]
-            for name, x, how, keys in mutation_sites_of(node.ast):
-                kl = st.get(name)
-                if kl is None:
-                    continue  # a local never bound to input data
-                kind, lvl, cont = kl
-                origin = {B: "borrowed from the input", F1: "shallow copy made in this call", F2: "copy incl. context (Mutable)", FL: "built in this call"}[lvl]
-                if kind == "stream":
-                    if len(keys) <= 1 and (how.startswith("call:") or how == "subscript-store"):
-                        ok = cont  # re-ordering / replacing slots of a list built in this call
-                        origin = "container built in this call" if cont else "the input iterable itself"
-                    else:
-                        ok = lvl >= F1
-                elif len(keys) >= 2 or (how.startswith("call:") and len(keys) == 1):
-                    sub = f"{name}[{unparse(keys[0])}]"
-                    if sub in st:
-                        ok = st[sub][1] >= F1
-                    else:
-                        ok = (lvl == F2 and const_str(keys[0]) == "context") or lvl == FL
-                else:
-                    ok = lvl >= F1
-                n += 1
-                ctx.ob(rule, rel, qual, x, f"in-place mutation of `{name}` ({how}) hits an object created in this call", ok,
-                       detail={"origin": origin})
+        # helper closures: a parameter the closure mutates in place must be bound to an object created in this call at every call site
+        # (checked below); inside the closure that parameter is then a shallow copy, every other parameter is borrowed
+        closures = {g.name: g for g in ast.walk(fn) if isinstance(g, ast.FunctionDef) and g is not fn}
+        mut_params = {}
+        for g in closures.values():
+            ps = [a.arg for a in g.args.args]
+            mut_params[g.name] = [i for i, p_ in enumerate(ps) if any(nm == p_ for nm, *_ in mutation_sites(g))]
+        units = [(fn, Fresh(fn, params))]
+        for g in closures.values():
+            ps = [a.arg for a in g.args.args]
+            init = {p_: ("obj", F1 if i in mut_params[g.name] else B, True) for i, p_ in enumerate(ps)}
+            units.append((g, Fresh(g, [], init)))
+        for unit, fr_ in units:
+            for node in fr_.cfg.nodes:
+                if node.kind not in ("stmt", "test", "iter") or node.ast is None or node.id not in fr_.IN:
+                    continue
+                for call in [c for c in walk_shallow(node_ast_for_effects(node)) if isinstance(c, ast.Call) and isinstance(c.func, ast.Name) and c.func.id in closures]:
+                    for i in mut_params[call.func.id]:
+                        if i < len(call.args):
+                            lvl = fr_.level_obj(call.args[i], fr_.IN[node.id])
+                            n += 1
+                            ctx.ob(rule, rel, qual, call, f"`{call.func.id}` mutates its argument {i} in place: the object passed was created in this call", lvl >= F1,
+                                   detail={"closure": call.func.id, "in": unit.name, "level": lvl})
+        for unit, fr in units:
+          reach = fr.cfg.reachable()
+          seen_nodes = set()
+          for node in fr.cfg.nodes:
+              if node.id not in reach or node.kind != "stmt" or node.ast is None or node.id not in fr.IN:
+                  continue
+              if isinstance(node.ast, (ast.FunctionDef, ast.ClassDef)):
+                  continue
+              if id(node.ast) in seen_nodes:
+                  continue
+              seen_nodes.add(id(node.ast))
+              st = fr.IN[node.id]
+              for name, x, how, keys in mutation_sites_of(node.ast):
+                  kl = st.get(name)
+                  if kl is None:
+                      continue  # a local never bound to input data
+                  kind, lvl, cont = kl
+                  origin = {B: "borrowed from the input", F1: "shallow copy made in this call", F2: "copy incl. context (Mutable)", FL: "built in this call"}[lvl]
+                  if kind == "stream":
+                      if len(keys) <= 1 and (how.startswith("call:") or how == "subscript-store"):
+                          ok = cont  # re-ordering / replacing slots of a list built in this call
+                          origin = "container built in this call" if cont else "the input iterable itself"
+                      else:
+                          ok = lvl >= F1
+                  elif len(keys) >= 2 or (how.startswith("call:") and len(keys) == 1):
+                      sub = f"{name}[{unparse(keys[0])}]"
+                      if sub in st:
+                          ok = st[sub][1] >= F1
+                      else:
+                          ok = (lvl == F2 and const_str(keys[0]) == "context") or lvl == FL
+                  else:
+                      ok = lvl >= F1
+                  n += 1
+                  ctx.ob(rule, rel, qual, x, f"in-place mutation of `{name}` ({how}) hits an object created in this call", ok,
+                         detail={"origin": origin})
     if only is None:
         ctx.floor(rule, "mutation sites on tracked objects", n, 25)
 
@@ -781,9 +873,9 @@ def r5_cache_copies(ctx):
 
 
 # ------------------------------------------------------------------------------------------ R6
-def r6_replay_buffer(ctx):
+def r6_replay_buffer(ctx, rule="C04.R6"):
     """pipes.Cache is the one by-design cross-read state: its protocol must keep 'buffer + saved iterator' equal to the source."""
-    ctx.rule("C04.R6", "pipes.Cache: items are appended to the buffer before they are handed out, and the saved iterator is dropped "
+    ctx.rule(rule, "pipes.Cache: items are appended to the buffer before they are handed out, and the saved iterator is dropped "
                        "(= 'buffer complete') only on the path where the source was exhausted -- never on an abandoned or failing read")
     from ..cfg import CFG
     fn = ctx.fn(PF, "Cache.filter")
@@ -791,7 +883,7 @@ def r6_replay_buffer(ctx):
     reach = g.reachable()
     done = [n.id for n in g.nodes if n.id in reach and n.kind == "stmt" and isinstance(n.ast, ast.Assign) and any(is_self_attr(t, "_iter") for t in n.ast.targets)
             and isinstance(n.ast.value, ast.Constant) and n.ast.value.value is None]
-    ctx.floor("C04.R6", "'buffer complete' stores in pipes.Cache.filter", len(done), 1)
+    ctx.floor(rule, "'buffer complete' stores in pipes.Cache.filter", len(done), 1)
     # nodes reachable after taking an abandon / exception edge
     after_abnormal = set()
     todo = []
@@ -807,25 +899,25 @@ def r6_replay_buffer(ctx):
                 after_abnormal.add(b)
                 todo.append(b)
     for d in done:
-        ctx.ob("C04.R6", PF, "Cache.filter", g.nodes[d].ast, "the buffer is marked complete only after the source iterator was exhausted (not when a read is abandoned or fails)",
+        ctx.ob(rule, PF, "Cache.filter", g.nodes[d].ast, "the buffer is marked complete only after the source iterator was exhausted (not when a read is abandoned or fails)",
                d not in after_abnormal, detail=None if d not in after_abnormal else {"note": "reachable after an abandon/exception edge (e.g. inside a finally)"})
         # and it is preceded by the exhaustion of the while loop
         wl = [x for x in walk_shallow(fn) if isinstance(x, ast.While) and "islice(self._iter" in unparse(x.test)]
         ok = len(wl) == 1 and g.nodes[d].ast.lineno > wl[0].end_lineno and not any(isinstance(x, ast.Break) for x in walk_shallow(wl[0]))
-        ctx.ob("C04.R6", PF, "Cache.filter", g.nodes[d].ast, "completion follows the loop that drains the saved iterator (which has no break)", ok, stmt="complete after drain loop")
+        ctx.ob(rule, PF, "Cache.filter", g.nodes[d].ast, "completion follows the loop that drains the saved iterator (which has no break)", ok, stmt="complete after drain loop")
     for lp in [x for x in walk_shallow(fn) if isinstance(x, ast.While)]:
         ext = [x for x in lp.body if isinstance(x, ast.Expr) and isinstance(x.value, ast.Call) and unparse(x.value.func) == "self._cache.extend"]
         ys = [x for x in lp.body if isinstance(x, ast.Expr) and isinstance(x.value, (ast.Yield, ast.YieldFrom))]
         ok = len(ext) == 1 and len(ys) == 1 and lp.body.index(ext[0]) < lp.body.index(ys[0]) and unparse(ext[0].value.args[0]) == unparse(ys[0].value.value)
-        ctx.ob("C04.R6", PF, "Cache.filter", lp, "a slice is buffered before it is yielded (an abandoned read loses nothing that was taken from the source)", ok, stmt="buffer before yield")
+        ctx.ob(rule, PF, "Cache.filter", lp, "a slice is buffered before it is yielded (an abandoned read loses nothing that was taken from the source)", ok, stmt="buffer before yield")
     first_iter = [x for x in walk_shallow(fn) if isinstance(x, ast.Assign) and any(is_self_attr(t, "_iter") for t in x.targets) and unparse(x.value) == "iter(items)"]
     ok = len(first_iter) == 1 and any("self._iter is None and self._cache is None" == unparse(t) and p for t, p in guards_of(first_iter[0], fn))
-    ctx.ob("C04.R6", PF, "Cache.filter", first_iter[0] if first_iter else fn, "the source is opened once, on the very first read", ok, stmt="open source once")
+    ctx.ob(rule, PF, "Cache.filter", first_iter[0] if first_iter else fn, "the source is opened once, on the very first read", ok, stmt="open source once")
 
 
 # ------------------------------------------------------------------------------------------ R7
-def r7_held_learners(ctx, fam):
-    ctx.rule("C04.R7", "a learner/evaluator object held by a filter (constructor argument) is only ever trained through a deep copy made in the read")
+def r7_held_learners(ctx, fam, rule="C04.R7"):
+    ctx.rule(rule, "a learner/evaluator object held by a filter (constructor argument) is only ever trained through a deep copy made in the read")
     n = 0
     for key, c in fam.items():
         for mname, fn in read_path_methods(ctx, c).items():
@@ -840,12 +932,14 @@ def r7_held_learners(ctx, fam):
                         continue
                     n += 1
                     ok = all(isinstance(e, ast.Call) and call_name(e) in ("copy.deepcopy", "deepcopy") for e in exprs if any(is_self_attr(s2) for s2 in ast.walk(e)))
-                    ctx.ob("C04.R7", c.rel, f"{c.qual}.{mname}", x, "the held learner reaches evaluate/learn/predict only as a deepcopy (the caller's object is never trained)", ok,
+                    ctx.ob(rule, c.rel, f"{c.qual}.{mname}", x, "the held learner reaches evaluate/learn/predict only as a deepcopy (the caller's object is never trained)", ok,
                            detail={"argument": [unparse(e) for e in exprs]})
-    ctx.floor("C04.R7", "uses of held learners on read paths", n, 1)
+    ctx.floor(rule, "uses of held learners on read paths", n, 1)
 
 
 CONTROLS = [
+    ("save shrinks only one of the aligned lists", "coba/environments/core.py", M.delete_stmt("Environments.save", M.simple_has("self_params.pop(param_index_in_self)")), "C04.R8"),
+    ("catset rewrites the nested row in place", PR, M.replace_expr("EncodeCatRows._encode_collection", "list(row) if isinstance(row, tuple) else copy(row)", "list(row) if isinstance(row, tuple) else row", nth=0), "C04.R3"),
     ("cache complete in finally", PF, M.replace_stmt("Cache.filter", M.simple_has("self._iter = None"), "pass"), "C04.R6") if False else
     ("yield before buffering", PF, M.swap_stmts("Cache.filter", M.simple_has("self._cache.extend(current)"), M.simple_has("yield from current")), "C04.R6"),
     ("logged shallow copy", EF, M.replace_expr("Logged.filter", "copy.deepcopy(self._learner)", "copy.copy(self._learner)"), "C04.R7"),
